@@ -4,6 +4,7 @@ package main
 
 import (
 	"encoding/json"
+	"fmt"
 
 	sdkmath "cosmossdk.io/math"
 
@@ -222,6 +223,69 @@ func (c *caseT) op() {
 	}
 }
 
+// genesis: `ValidateGenesis` on the exported state (a reachable state is a valid genesis) and on copies of it in which one
+// deposit clause is broken (records of a tunnel dropped, a total moved by one, a record moved to another tunnel, a record
+// duplicated, a record for an unknown tunnel)
+func (c *caseT) genesis() {
+	r := c.r
+	g := tunnelkeeper.ExportGenesis(c.ctx, c.app.TunnelKeeper)
+	variant := r.Intn(6)
+	if len(g.Tunnels) == 0 {
+		variant = 0
+	}
+	pickT := func() int { return r.Intn(len(g.Tunnels)) }
+	switch variant {
+	case 1: // the records of one tunnel disappear (its total stays)
+		tid := g.Tunnels[pickT()].ID
+		var keep []tunneltypes.Deposit
+		for _, d := range g.Deposits {
+			if d.TunnelID != tid {
+				keep = append(keep, d)
+			}
+		}
+		g.Deposits = keep
+	case 2: // a total is off by one
+		k := pickT()
+		g.Tunnels[k].TotalDeposit = g.Tunnels[k].TotalDeposit.Add(sdk.NewInt64Coin(denoms[r.Intn(len(denoms))], 1))
+	case 3: // a record is booked on another tunnel
+		if len(g.Deposits) > 0 {
+			k := r.Intn(len(g.Deposits))
+			g.Deposits[k].TunnelID = g.Tunnels[pickT()].ID
+		}
+	case 4: // a record twice
+		if len(g.Deposits) > 0 {
+			g.Deposits = append(g.Deposits, g.Deposits[r.Intn(len(g.Deposits))])
+		}
+	case 5: // a record for a tunnel that does not exist
+		if len(g.Deposits) > 0 {
+			d := g.Deposits[r.Intn(len(g.Deposits))]
+			d.TunnelID = g.TunnelCount + 1
+			g.Deposits = append(g.Deposits, d)
+		}
+	}
+	tun := [][]any{}
+	for _, t := range g.Tunnels {
+		tun = append(tun, []any{t.ID, amounts(t.TotalDeposit)})
+	}
+	deps := [][]any{}
+	for _, d := range g.Deposits {
+		who := 99
+		for i, ac := range c.accts {
+			if ac.Address.String() == d.Depositor {
+				who = i
+			}
+		}
+		deps = append(deps, []any{d.TunnelID, who, amounts(d.Amount)})
+	}
+	err := tunneltypes.ValidateGenesis(*g)
+	es := ""
+	if err != nil {
+		es = "rejected"
+	}
+	c.tr.Tag(fmt.Sprintf("genesis-variant-%d", variant))
+	c.tr.Op(fx.M{"op": "genesis", "variant": variant, "tunnels": tun, "deposits": deps, "out": fx.M{"accepted": err == nil, "err": es}})
+}
+
 func runCase(app *fx.App, tr *fx.Trace, r *fx.Rng) {
 	ctx, _ := app.Ctx.CacheContext()
 	c := &caseT{app: app, ctx: ctx, tr: tr, r: r, accts: []bandtesting.Account{bandtesting.Alice, bandtesting.Bob, bandtesting.Carol},
@@ -245,7 +309,11 @@ func runCase(app *fx.App, tr *fx.Trace, r *fx.Rng) {
 	n := r.Range(8, 40)
 	for i := 0; i < n; i++ {
 		c.op()
+		if r.Chance(1, 8) {
+			c.genesis()
+		}
 	}
+	c.genesis()
 }
 
 func main() {
